@@ -38,6 +38,15 @@ MUTATION_DRILLS = [
      "ran": "same", "test_suite_with_mutation": "passes (ctest, guard off)",
      "fired": "VIOLATION property=C10 with a concrete failing history (found_failing_input=true): stored:vscript / stored:vtable - the real call log "
               "stores |c|+2 for a counted update (property oracle on the log), raw dumps differ from the model - exit 1"},
+    {"mutation": "(independently seeded) UserDictionary::DfsLookup skips EVERY abbreviation of a syllable that has more than one spelling at the position "
+                 "(`spelling.second.size() > 1 && type >= kAbbreviation` instead of `i > 0 && ...`)",
+     "ran": "scratch worktree + copy of /verif: VERIF_REPO=/var/tmp/wt-c11 VERIF_CACHE=/var/tmp/rime-verif-c11 bin/check C10 quick",
+     "test_suite_with_mutation": "passes (ctest, guard off)",
+     "fired": "was MISSED (no abbreviated inputs). Now: abbreviated inputs (one-letter and zh/ch/sh abbreviations) in the pools, `abbr` steps (partial "
+              "selection via the new harness command Q, commit, optional session restart, retype the same input), vscript has two abbreviation "
+              "levels (abbrev rules + sha/shu/zhu/ha). VIOLATION property=C10 with concrete failing histories (found_failing_input=true): "
+              "assembled:vscript:not-offered (21, e.g. `mzh` -> 嗎朱), assembled:vscript:not-offered-after-restart (9), "
+              "assembled:luna_pinyin:not-offered (8, e.g. `shsh`), assembled:luna_pinyin:not-offered-after-restart (5)"},
 ]
 
 MAIN_DB = {"vscript": "vscript", "vtable": "vtable", "luna_pinyin": "luna_pinyin"}
@@ -107,6 +116,8 @@ def validate_weight_mono(rnd, rounds):
 
 
 def syllables_of(schema, x):
+    if x in udbl.ABBR_INPUTS.get(schema, []):
+        return 2
     if schema == "vscript":
         return len(x) // 2
     if schema == "vtable":
@@ -290,6 +301,11 @@ def run(ctx):
                                  {"script": h.script, "db": main, "at_command": a + 1, "real": recs, "model": h.model[main]["P"][pdb][1]}, False))
                 continue
             before, after = lst(a), lst(b)
+            after_restart = None
+            if kind == "abbr":
+                after = lst(a + 4)
+                after_restart = lst(b) if b > a + 4 else None
+                b = a + 4
             if before is None or after is None:
                 continue
             evs = [(i, e) for i, (e, c) in enumerate(zip(dmain.events, dmain.event_cmd)) if a < c < b]
@@ -299,7 +315,7 @@ def run(ctx):
             for l in sum((out[i] for i in range(a + 1, b)), []):
                 if " commit=" in l and "commit=none" not in l:
                     committed = l.split("commit=")[1].split()[0]
-            if kind in ("select", "top") and committed and len(commits) == 1:
+            if kind in ("select", "top", "abbr") and committed and len(commits) == 1:
                 ci, cev = commits[0]
                 calls = h.extra[main]["CALLS"].get(ci, [])
                 nseg = int(cev[4])
@@ -327,9 +343,17 @@ def run(ctx):
                     # assembled from several selections and saved as one entry (script translator)
                     st["assembled_checks"] += 1
                     nontrivial.add((h.schema, x, committed, "assembled"))
+                    if kind == "abbr":
+                        st["assembled_abbreviated_checks"] = st.get("assembled_abbreviated_checks", 0) + 1
                     if committed not in after:
                         viol.append(("assembled:%s:not-offered" % h.schema, "a phrase assembled from several partial selections is not offered as one candidate afterwards",
                                      _replay(h, kind, x, a, b, committed, before, after), True))
+                    if after_restart is not None:
+                        st["assembled_after_restart_checks"] = st.get("assembled_after_restart_checks", 0) + 1
+                        if committed not in after_restart:
+                            viol.append(("assembled:%s:not-offered-after-restart" % h.schema,
+                                         "a phrase assembled from several partial selections is not offered as one candidate when the same input is retyped in a new session",
+                                         _replay(h, kind, x, a, b + 3, committed, before, after_restart), True))
                     if any(vis_before.get(kk) == "0" for kk in counted_keys):
                         st["revive_checks"] += 1
                 else:
